@@ -374,9 +374,7 @@ pub fn check_c04(e: &Engine, w: &Workload, seed: u64, rep: &mut Report) -> (usiz
             };
             let c = convs.entry(key).or_default();
             c.0.push(t.at);
-            if !c.1.contains(&nonce) {
-                c.1.push(nonce);
-            }
+            c.1.push(nonce);
         }
         let mut legit = false;
         for (key, (tx_times, nonces)) in &convs {
@@ -385,7 +383,10 @@ pub fn check_c04(e: &Engine, w: &Workload, seed: u64, rep: &mut Report) -> (usiz
                 .take_while(|t| t.at <= t_fail)
                 .filter_map(|u| match &u.ev {
                     Ev::Injected { from, class, .. } if *from == addr => match class {
-                        InClass::WhoAreYou { request_nonce } if nonces.contains(request_nonce) => Some(u.at),
+                        // a WHOAREYOU concerns the request only if it echoes the nonce of the
+                        // packet the request currently travels in (its latest transmission); one
+                        // that echoes an earlier packet of it is ignored by the handler
+                        InClass::WhoAreYou { request_nonce } if tx_times.iter().zip(nonces.iter()).filter(|(at, _)| **at <= u.at).last().map(|(_, n)| n == request_nonce).unwrap_or(false) => Some(u.at),
                         InClass::Message { msg, .. } if !msg.is_request() && msg.id() == &key[..] => Some(u.at),
                         _ => None,
                     },
